@@ -312,6 +312,7 @@ type runtimeState struct {
 	ingressGlobalLimit   *tokenBucketLimiter
 	ingressRouteLimits   map[string]*tokenBucketLimiter
 	adaptiveController   *adaptiveAdmissionController
+	applyGate            sync.RWMutex // held for writing while a reload swaps the state
 	now                  func() time.Time
 }
 
@@ -921,6 +922,13 @@ func (s *runtimeState) reloadAll(compiled config.Compiled) error {
 	return s.loadAuthAnd(compiled, func() { s.updateAllLocked(compiled) })
 }
 
+// holdConfig keeps a reload from being applied until the returned function is
+// called. It must not be held across anything that itself triggers a reload.
+func (s *runtimeState) holdConfig() (release func()) {
+	s.applyGate.RLock()
+	return s.applyGate.RUnlock
+}
+
 // loadAuthAnd builds all authenticators first and swaps them under the lock only at
 // the end; alsoLocked, if set, runs inside the same critical section.
 func (s *runtimeState) loadAuthAnd(compiled config.Compiled, alsoLocked func()) error {
@@ -1059,6 +1067,10 @@ func (s *runtimeState) loadAuthAnd(compiled config.Compiled, alsoLocked func()) 
 		hmacByRoute[rt.Path] = auth
 	}
 
+	// Requests that take several decisions from the configuration (a publish
+	// batch is validated item by item) hold applyGate for reading: the swap waits
+	// for them instead of landing between two of their decisions.
+	s.applyGate.Lock()
 	s.mu.Lock()
 	// Replay protection must survive a reload: keep the nonces each route has
 	// already honoured.
@@ -1079,6 +1091,7 @@ func (s *runtimeState) loadAuthAnd(compiled config.Compiled, alsoLocked func()) 
 		alsoLocked()
 	}
 	s.mu.Unlock()
+	s.applyGate.Unlock()
 	verifhook.Point("state.write-unlocked")
 	return nil
 }
@@ -1937,6 +1950,7 @@ func startServers(
 	adminH.PublishDirectEnabledForRoute = state.publishDirectEnabledForRoute
 	adminH.PublishManagedEnabledForRoute = state.publishManagedEnabledForRoute
 	adminH.LimitsForRoute = state.limitsFor
+	adminH.HoldConfig = state.holdConfig
 	adminH.MaxBodyBytes = compiled.Defaults.MaxBodyBytes
 	adminH.MaxHeaderBytes = compiled.Defaults.MaxHeaderBytes
 	adminH.PublishGlobalDirectEnabled = compiled.Defaults.PublishPolicy.DirectEnabled
